@@ -14,6 +14,14 @@ CONSTANTS
   AllowAdd = TRUE
   AllowDw = FALSE
   AllowReuse = TRUE
+  PMs = {"zeros"}
+  Ds = {1}
+  Ss = {1}
+  Biases = {TRUE}
+  Batches = {1, 4}
+  Alphabet = "classic"
+  FwdImpl = "plain"
+  ExpImpl = "fresh"
   TupMode = "one"
   WType = "pl"
   SelMode = "rot"
@@ -31,3 +39,5 @@ INVARIANT InvOutputFloat
 INVARIANT InvCostExact
 INVARIANT InvSpecKeys
 INVARIANT InvPerInvocation
+INVARIANT InvExportGeom
+INVARIANT InvBatchIndependent
